@@ -11,6 +11,7 @@ by nature and labelled so in the manifest.
 import Smpl.Model.Akai
 import Smpl.Model.Roland
 import Smpl.Model.Cue
+import Smpl.Model.AkaiProgram
 import Smpl.Props.C07
 
 namespace Smpl.Props.C13
@@ -258,5 +259,35 @@ theorem C13_window_bound (content : Smpl.Roland.Bytes) (start n : Int) (rev : Bo
         exact Nat.le_trans (this _) hlen
       · simp at h
     · simp at h; subst h; exact hlen
+
+/-! ## AKAI program keygroup chain -/
+
+open Smpl.AkaiProgram in
+/-- the keygroup chain is walked exactly `number_of_keygroups − i` times (a one-byte count: at most
+255), whatever next-addresses the keygroups store — a cyclic chain cannot make it longer. -/
+theorem C13_keygroups (c : Smpl.Akai.Bytes) (n : Nat) :
+    ∀ (k i pos : Nat) (kgs : List Keygroup), n - i = k → parseKeygroups c n i pos = some kgs → kgs.length = k := by
+  intro k
+  induction k with
+  | zero =>
+    intro i pos kgs hk h
+    rw [parseKeygroups] at h
+    have : i ≥ n := by omega
+    simp [this] at h
+    subst h; rfl
+  | succ k ih =>
+    intro i pos kgs hk h
+    rw [parseKeygroups] at h
+    have : ¬ i ≥ n := by omega
+    simp only [this, dite_false] at h
+    split at h
+    · cases h
+    · split at h
+      · cases h
+      · rename_i kg _ rest hrest
+        simp only [Option.some.injEq] at h
+        subst h
+        have := ih (i + 1) _ rest (by omega) hrest
+        simp [this]
 
 end Smpl.Props.C13
